@@ -201,13 +201,13 @@ def judge(prop, obs, ctx, shards=12):
 def write_evidence(prop, tier, seed, wall, cov, violations, assumptions):
     ev = {"property_id": prop.ID, "tier": tier, "seed": seed, "level": prop.LEVEL, "coverage": cov,
           "assumptions": assumptions, "wall_s": round(wall, 1), "violations": violations}
-    os.makedirs(os.path.join(lib.VERIF, "evidence"), exist_ok=True)
-    with open(os.path.join(lib.VERIF, "evidence", prop.ID + ".json"), "w") as f:
+    os.makedirs(os.path.join(lib.OUT, "evidence"), exist_ok=True)
+    with open(os.path.join(lib.OUT, "evidence", prop.ID + ".json"), "w") as f:
         json.dump(ev, f, indent=1)
 
 
 def save_replay(prop, rec, verdict):
-    d = os.path.join(lib.VERIF, "replays", prop.ID)
+    d = os.path.join(lib.OUT, "replays", prop.ID)
     os.makedirs(d, exist_ok=True)
     scn = {k: v for k, v in rec.items() if k not in ("snapshot", "obs")}
     path = os.path.join(d, lib.scn_sha(scn) + ".json")
@@ -220,7 +220,7 @@ def save_replay(prop, rec, verdict):
 def run_check(prop, tier, seed):
     t0 = time.time()
     lib.ensure_build()
-    shutil.rmtree(os.path.join(lib.VERIF, "replays", prop.ID), ignore_errors=True)      # replays of earlier runs are stale
+    shutil.rmtree(os.path.join(lib.OUT, "replays", prop.ID), ignore_errors=True)      # replays of earlier runs are stale
     ctx = Ctx(tier, seed)
     states = transitions = 0
     mech_info = []
